@@ -16,14 +16,14 @@ NOTE = ("Bounded by the shape box in coverage.bounds. Trusted: the SymKind model
 checks = {
  "C01": ("S", "compose vs reference pushout up to isomorphism; None iff boundary types differ"),
  "C02": ("S", "strict tensor equals juxtaposition as data; associativity and unit on the nose ; lax half (lax tier): lax tensor incl. pending pairs equals juxtaposition as data, associativity, unit"),
- "C03": ("S", "associativity, identities, interchange, naturality/self-inverse/hexagons of the symmetry, each decided up to genuine isomorphism"),
+ "C03": ("S", "associativity, identities, interchange, naturality/self-inverse/hexagons of the symmetry, each decided up to genuine isomorphism; lax half (lax tier): the laws for lax diagrams with pending unifications, compared after to_strict"),
  "C04": ("S", "dagger laws, spider accept/reject with symbolic codomains, spider fusion vs cospan composite, identities and symmetries are spiders; lax half (lax tier): lax identity/twist/singleton/spider/half_spider data, dagger, fusion through strictification"),
  "C05": ("S", "checked constructors on raw 64-bit data accept iff documented conditions; Err variants name a failing condition; results well-formed and typed"),
  "C06": ("S", "finite-function operations vs functions-as-term-vectors; coequalizer minimality via an independent closure; universal map iff constant on fibres"),
  "C07": ("SK", "Engine K: Kani proof harnesses of every VecArray primitive against scalar specifications (all contents of arrays of length 0..3, unwinding assertions on); Engine S: the same contract through the array traits at both backends, one native VecKind run per order/equality pattern of the inputs"),
  "C08": ("S", "segmented-array operations vs list-of-lists decoding and the size invariant; real iterator next/len/size_hint"),
  "C10": ("L", "conversions: round trips exact, to_strict panics iff label conflict and otherwise is the quotient; lax compose defined iff types match (unchecked iff arities), results glue the strict meanings; strictification commutes with ; (x) dagger (both sides by the real code, up to iso); in-place tensor/append/coproduct equal the pure forms as data"),
- "C11": ("L", "every builder call from an arbitrary state vs a list model: returned identifiers, resulting fields, deletion witness, rejection of out-of-range identifiers (serde clause not covered)"),
+ "C11": ("L", "every builder call from an arbitrary state vs a list model: returned identifiers, resulting fields, deletion witness, rejection of out-of-range identifiers; serde JSON round trip (labels serialised as opaque tokens) and documented JSON shape; thorough tier adds a Kani harness of delete_nodes with symbolic identifiers"),
  "C13": ("L", "native path: None iff pending unifications; quotiented image isomorphic to the substitution and to the strict path; witness sizes, labels and interface push-through"),
  "C19": ("L", "forget / forget_monogamous vs substitution with the replace-iff-uniform rule up to iso; scripted Var-builder expressions evaluate to the expression written on symbolic inputs; build fails iff a handle outlives the builder"),
  "C09": ("L", "quotient: fibres = classes of the pending pairs, references mapped, labels of fibres, idempotence, Err iff label conflict and then unchanged"),
@@ -58,7 +58,7 @@ na = [{"property_id": p["id"], "reason": NA[p["id"]]} for p in props if p["id"] 
 m = {"version": 1,
      "setup_cmd": "./vf setup",
      "hooks": {"guard": "verif-hooks", "enable": "cargo feature `verif-hooks` of open-hypergraphs, switched on only by the Kani harness crate (kani/Cargo.toml path dependency); Engine S and all native replays build /repo with the guard off", "baseline_off_cmd": "cd /repo && cargo test --workspace --no-fail-fast --offline", "source_commits": ["4b2de11"], "add_only": True},
-     "engines": [{"name": "K", "path": "kani/", "serves_properties": ["C07"], "kind_free_text": "Kani proof harness crate with a path dependency on /repo (feature verif-hooks on: association-list stand-in for std HashMap)"}, {"name": "S", "path": "symk/", "serves_properties": sorted(checks), "kind_free_text": "symbolic ArrayKind backend + re-execution path explorer + SMT-LIB pipe to z3; runs the real generic library code over bit-vector terms; lax tier runs the real lax code with symbolic labels"}],
+     "engines": [{"name": "K", "path": "kani/", "serves_properties": ["C07", "C10", "C11"], "kind_free_text": "Kani proof harness crate with a path dependency on /repo (feature verif-hooks on: association-list stand-in for std HashMap)"}, {"name": "S", "path": "symk/", "serves_properties": sorted(checks), "kind_free_text": "symbolic ArrayKind backend + re-execution path explorer + SMT-LIB pipe to z3; runs the real generic library code over bit-vector terms; lax tier runs the real lax code with symbolic labels"}],
      "checks": out_checks,
      "not_applicable": na,
      "notes": "see DESIGN.md; known_findings.json lists the genuine defects found (all repaired with fix: commits in /repo)"}
